@@ -1,6 +1,7 @@
 package main
 
 import (
+	"go/token"
 	"fmt"
 	"go/ast"
 	"go/types"
@@ -37,6 +38,9 @@ func (e *Engine) newUnit(fn *ssa.Function) *Unit {
 				if mt, ok := stt.Field(i).Type().Underlying().(*types.Map); ok && stt.Field(i).Name() == parts[2] {
 					key := u.sorts.typeKey(mt.Key()) + "=>" + u.sorts.typeKey(mt.Elem())
 					u.distinctHeaps["MV:"+key] = u.sorts.sortOf(mt.Key())
+					if pt, ok := mt.Elem().Underlying().(*types.Pointer); ok && strings.Contains(inv, "frozen") {
+						u.frozenHeaps["H:"+u.sorts.typeKey(pt.Elem())] = mt
+					}
 				}
 			}
 		}
@@ -45,7 +49,7 @@ func (e *Engine) newUnit(fn *ssa.Function) *Unit {
 }
 
 func (e *Engine) newUnit0(fn *ssa.Function) *Unit {
-	return &Unit{eng: e, distinctHeaps: map[string]string{}, sorts: newSorts(), fn: fn, heapSort: map[string]string{}, initHeap: map[string]string{},
+	return &Unit{eng: e, distinctHeaps: map[string]string{}, frozenHeaps: map[string]*types.Map{}, sorts: newSorts(), fn: fn, heapSort: map[string]string{}, initHeap: map[string]string{},
 		obNames: map[string]int{}, abstracted: map[string]int{}, externsUsed: map[string]bool{}, defaultExt: map[string]bool{},
 		dynCalls: map[string]bool{}, values: map[string]string{}, contractsUsed: map[string]bool{}, assertsSeen: map[string]bool{}, nonNil: map[string]bool{}}
 }
@@ -95,6 +99,11 @@ func (e *Engine) verifyFunc(fn *ssa.Function) (u *Unit) {
 	for _, fv := range fn.FreeVars {
 		n := u.declare("fv."+fv.Name(), u.sorts.sortOf(fv.Type()))
 		fr.assumeWF(fv.Type(), n, st, "true")
+		if _, ok := fv.Type().Underlying().(*types.Pointer); ok {
+			// a free variable is the address of the captured variable's cell: never nil
+			u.assume("true", fmt.Sprintf("(not (= %s 0))", n))
+			u.nonNil[n] = true
+		}
 		bindings = append(bindings, &Val{t: n})
 	}
 	if fn.Name() == "init" && fn.Synthetic != "" && fn.Pkg != nil {
@@ -334,6 +343,15 @@ func describeUnit(u *Unit) string {
 // localNamed finds the value of the source-level local variable `name` as of instruction `at`:
 // the latest DebugRef of that variable which dominates `at` (go/ssa GlobalDebug mode).
 func (fr *frame) localNamed(name string, at ssa.Instruction, st *State) *Val {
+	// `name?`: the latest definition of a local that need not dominate the anchor (declared in a branch taken earlier);
+	// `reached:name`: whether that definition was executed on the path reaching the anchor (the reach literal of its block)
+	opt, wantReach := false, false
+	if strings.HasPrefix(name, "reached:") {
+		name, opt, wantReach = strings.TrimPrefix(name, "reached:"), true, true
+	}
+	if strings.HasSuffix(name, "?") {
+		name, opt = strings.TrimSuffix(name, "?"), true
+	}
 	type cand struct {
 		b      *ssa.BasicBlock
 		idx    int
@@ -343,7 +361,7 @@ func (fr *frame) localNamed(name string, at ssa.Instruction, st *State) *Val {
 	var cands []cand
 	atBlock := at.Block()
 	for _, b := range fr.fn.Blocks {
-		if !(b == atBlock || b.Dominates(atBlock)) {
+		if !(b == atBlock || b.Dominates(atBlock)) && !opt {
 			continue
 		}
 		for i, in := range b.Instrs {
@@ -377,13 +395,32 @@ func (fr *frame) localNamed(name string, at ssa.Instruction, st *State) *Val {
 		return nil
 	}
 	best := cands[0]
-	for _, c := range cands[1:] {
-		if c.b == best.b {
-			if c.idx > best.idx {
+	if opt {
+		// latest in source order
+		posOf := func(c cand) token.Pos { return c.b.Instrs[c.idx].Pos() }
+		for _, c := range cands[1:] {
+			if posOf(c) > posOf(best) || (posOf(c) == posOf(best) && (c.b.Index > best.b.Index || (c.b == best.b && c.idx > best.idx))) {
 				best = c
 			}
-		} else if best.b.Dominates(c.b) {
-			best = c
+		}
+		if wantReach {
+			if best.b == atBlock || best.b.Dominates(atBlock) {
+				return &Val{t: "true"}
+			}
+			if r, ok := fr.reach[best.b.Index]; ok && r != "" {
+				return &Val{t: r}
+			}
+			return nil
+		}
+	} else {
+		for _, c := range cands[1:] {
+			if c.b == best.b {
+				if c.idx > best.idx {
+					best = c
+				}
+			} else if best.b.Dominates(c.b) {
+				best = c
+			}
 		}
 	}
 	v := fr.valOf(best.v)
@@ -403,6 +440,10 @@ func (fr *frame) retsByPos() []retInfo {
 // emitAxioms asserts the universally quantified rules that define derived ghost predicates.
 func (u *Unit) emitAxioms(fr *frame, st *State) {
 	for _, ax := range u.eng.axiomDefs {
+		// Horn rules over a package's ghost vocabulary serve the proofs of that package's own units
+		if ax.Fn.Pkg != nil && fr.fn.Pkg != nil && ax.Fn.Pkg != fr.fn.Pkg {
+			continue
+		}
 		var args []*Val
 		var binders []string
 		for _, p := range ax.Fn.Params {
@@ -518,6 +559,18 @@ func (fr *frame) returnSiteAsserts(x *ssa.Return, st *State, reach string) {
 			}
 			sort.Slice(sites, func(i, j int) bool { return sites[i].Pos() < sites[j].Pos() })
 			if cl.Ordinal > len(sites) || sites[cl.Ordinal-1] != x {
+				continue
+			}
+		} else if cl.Ordinal == -1 {
+			var last *ssa.Return
+			for _, b := range fr.fn.Blocks {
+				for _, in := range b.Instrs {
+					if r, ok := in.(*ssa.Return); ok && (last == nil || r.Pos() > last.Pos()) {
+						last = r
+					}
+				}
+			}
+			if last != x {
 				continue
 			}
 		}
